@@ -348,7 +348,15 @@ class KindEngine:
                     # loses the rest
                     lost = id(obj) not in reached
                 elif isinstance(obj, list):
-                    lost = not (ids & reached)
+                    # every statement of a list child has to arrive: taking the first (or last) element loses the others
+                    def flat(x):
+                        for y in x:
+                            if isinstance(y, (list, tuple)):
+                                yield from flat(y)
+                            else:
+                                yield y
+                    elems = [id(y) for y in flat(obj) if isinstance(y, AObj)]
+                    lost = not (ids & reached) or any(e_ not in reached for e_ in elems)
                 if lost:
                     d = combo[i]
                     k = f"{name}[{alt.origin}#{alt.order}: {alt.skeleton()}] child {i}"
